@@ -81,6 +81,10 @@ func main() {
 		reqsim.BatchMain(os.Args[2], os.Args[3], seed)
 		return
 	}
+	if os.Args[1] == "__crashbig" && len(os.Args) == 5 {
+		crash.BigChildMain(os.Args[2], os.Args[3], os.Args[4])
+		return
+	}
 	if os.Args[1] == "__crash" && len(os.Args) == 6 {
 		var seed int64
 		fmt.Sscan(os.Args[3], &seed)
